@@ -1660,25 +1660,26 @@ class Machine:
         spec = self.loop_spec(env, ordinal)
         if spec is None:
             # complete unrolling of a constant-length iteration
+            items = None
             if isinstance(it, tuple) and it and it[0] == "range" and isinstance(it[1], int) and it[1] <= UNROLL_MAX:
                 items = list(range(it[1]))
             elif isinstance(it, ListRef) and isinstance(self.heap[it.addr], list):
                 items = list(self.heap[it.addr])
-            elif not (isinstance(it, tuple)) and isinstance(self.as_seq(it).length, int) and self.as_seq(it).length <= UNROLL_MAX:
+            elif not isinstance(it, tuple) and isinstance(self.as_seq(it).length, int) and self.as_seq(it).length <= UNROLL_MAX:
                 s = self.as_seq(it)
                 items = [self.seq_item(s, k) for k in range(s.length)]
-            else:
-                raise Unsupported("loop %d of %s needs an invariant (line %d)" % (ordinal, env.qualname, node.lineno))
-            self.ctx.unrolled.add("%s.%s loop %d (%d iterations)" % (self.unit["module"], env.qualname, ordinal, len(items)))
-            for x in items:
-                self.assign(node.target, x, env)
-                try:
-                    self.exec_block(node.body, env)
-                except BreakEx:
-                    break
-                except ContinueEx:
-                    continue
-            return
+            if items is not None:
+                self.ctx.unrolled.add("%s.%s loop %d (%d iterations)" % (self.unit["module"], env.qualname, ordinal, len(items)))
+                for x in items:
+                    self.assign(node.target, x, env)
+                    try:
+                        self.exec_block(node.body, env)
+                    except BreakEx:
+                        break
+                    except ContinueEx:
+                        continue
+                return
+            spec = self.trivial_spec(node, env, ordinal)
         if not isinstance(node.target, ast.Name):
             raise Unsupported("loop target")
         if isinstance(it, tuple) and it and it[0] == "range":
@@ -1691,13 +1692,21 @@ class Machine:
         counter = spec.get("counter", node.target.id)
         self.cut_loop(node, env, ordinal, spec, counter=counter, N=N, elem=elem)
 
+    def trivial_spec(self, node, env, ordinal):
+        """No contract for this loop (the code moved away from its sidecar): cut it with the trivial invariant.  Sound
+        (everything the loop may write is havocked) but weak: a failure downstream is only reported as a violation if a
+        replay on the real code confirms it, otherwise the check answers 'cannot decide'."""
+        self.ctx.degraded.add("loop %d of %s.%s (line %d) has no invariant in the sidecar: cut with the trivial invariant"
+                              % (ordinal, self.unit["module"], env.qualname, node.lineno))
+        return {"inv": []}
+
     def s_While(self, node, env):
         if node.orelse:
             raise Unsupported("while-else")
         ordinal = self.loop_ordinal(node, env)
         spec = self.loop_spec(env, ordinal)
         if spec is None:
-            raise Unsupported("loop %d of %s needs an invariant (line %d)" % (ordinal, env.qualname, node.lineno))
+            spec = self.trivial_spec(node, env, ordinal)
         self.cut_loop(node, env, ordinal, spec, counter=None, N=None, elem=None)
 
     def loop_spec(self, env, ordinal):
